@@ -166,6 +166,13 @@ Theorem C01_ignored_channel :
 Proof. exact channel_ignored_silent. Qed.
 Print Assumptions C01_ignored_channel.
 
+(* ... also when the command is replayed later by the scheduler: what counts is whether the user who scheduled it is
+   ignored when the event fires (was violated on the pinned code: finding C01.b, repaired in plugins/Scheduler) *)
+Theorem C01_ignored_scheduled :
+  forall i inner, checkIgnored i = Ok true -> scheduled_fire true i inner = Ok [].
+Proof. exact scheduled_ignored_silent. Qed.
+Print Assumptions C01_ignored_scheduled.
+
 (* the exemption: holders of `trusted` (owners included) are never ignored -- unless their own ignore flag is set *)
 Theorem C01_trusted_exempt :
   forall i u, i_user i = Some u -> user_check u TRUSTED false = Ok true -> checkIgnored i = Ok false.
